@@ -1,18 +1,45 @@
 from vcheck import Unit, ASAN, ASAN_ENV
 
+# exploration runs with symbolize=0 (a symbolised sanitizer report costs ~200 ms per crashed
+# history); --replay re-executes itself with symbolize=1
+_ENV = dict(ASAN_ENV)
+_ENV["ASAN_OPTIONS"] = ASAN_ENV["ASAN_OPTIONS"] + ":symbolize=0"
+
 _OPT_SRC = ["harness/C09_optional.cpp", "harness/C09_opt_int.cpp", "harness/C09_opt_string.cpp",
             "harness/C09_opt_tracked.cpp", "harness/C09_opt_doubleoff.cpp", "harness/C09_opt_trackedoff.cpp"]
 
-_ENV = dict(ASAN_ENV)
-_ENV["ASAN_OPTIONS"] = ASAN_ENV["ASAN_OPTIONS"] + ":symbolize=0"   # replays re-exec themselves with symbolize=1
+_PRUNE = ("Declared reductions, all exhaustive over the stated alphabet: (1) constructions target the lowest "
+          "absent slot (slots are interchangeable fresh heap blocks); (2) observer operations occur only as the "
+          "last operation of a history (after it the complete state is compared again, so an observer that "
+          "changed state is caught there); (3) a history that violated or crashed is not extended (every "
+          "extension would replay the same failing prefix); (4) the complete state comparison runs after the "
+          "last operation of each history - every proper prefix is itself an enumerated history.")
 
 UNITS_LOCAL = {"C09": [
     Unit("optional", _OPT_SRC, flags=ASAN, env=_ENV, engine="seqmc",
          budget={"quick": 100, "thorough": 1000},
-         rule="TODO",
-         assumptions=[]),
+         rule="every history of <= 4 (thorough 5) operations over 3 Optional<T> slots, replayed on fresh heap objects "
+              "in forked shards, for T = int, std::string (short and heap-long values), Tracked (live-address "
+              "registry), and double / Tracked inside struct{char; Optional<T>} (depth 2 only while "
+              "alignof(Optional<T>) < alignof(T), which is reported statically). Mutators: default/value/copy/move/"
+              "converting-copy/converting-move construction, destroy, assign value (lvalue and rvalue), copy-/move-"
+              "assign from every slot incl. itself, converting copy/move assign from Optional<U> empty and engaged "
+              "(short->int, const char*->string, float->double, int->Tracked), emplace, reset, assignment through "
+              "operator*. Observers: value_or, * / -> / value(), the six comparisons on every ordered pair of slots "
+              "and against Optional<U>, toString. Plus getEnvVar<int|float|string> on 13 environment settings. "
+              "Two histories are distinct when their operation sequences differ; distinct outcomes = distinct "
+              "(last operation, observed state digest). " + _PRUNE,
+         assumptions=["a moved-from Optional still reports a value (as std::optional does); that value is unspecified and not compared",
+                      "what a relational operator returns when an operand is empty is recorded, not judged (the statement only demands that it does not crash); two engaged wrappers must compare like their values",
+                      "ASan fills fresh heap blocks with 0xbe, so 'uninitialised storage' is deterministic"]),
     Unit("any", ["harness/C09_any.cpp"], repo_src=["rkcommon/utility/demangle.cpp"], flags=ASAN, env=_ENV, engine="seqmc",
          budget={"quick": 100, "thorough": 1000},
-         rule="TODO",
-         assumptions=[]),
+         rule="every history of <= 4 (thorough 5) operations over 3 Any slots holding int / std::string (short, "
+              "heap-long) / Tracked. Mutators: construct empty / from int / string / Tracked, copy-construct from every "
+              "slot, assign Any from every slot incl. itself, assign int / string / Tracked, assign through get<T>(), "
+              "destroy. Observers: == and != on every ordered pair (every engaged/empty combination, self "
+              "included), toString. After the last operation, on every slot: valid(), is<T>() and get<T>() const and "
+              "non-const for T in {int, string, Tracked, char} (right type returns the stored value, every other type "
+              "and every empty Any throws std::runtime_error), Tracked registry and heap balance. " + _PRUNE,
+         assumptions=["operator== of two engaged Any objects means same stored type and equal values; with an empty operand only 'does not crash' is demanded"]),
 ]}
